@@ -549,6 +549,28 @@ def _check_s2s(case, R):
         _battery(R, b, t, q, st, k, seed, ref_gd, explain)
         k += 1
 
+    # a deep copy of the system that is re-initialised in another configuration (its reference contact basis differs from the
+    # original's): on the copy the slip velocity is still affine in u with the copy's own force directions (seeded C06-l)
+    if s.nla_F and all(kd in ("RB", "PM") for kd in kinds):
+        from cardillo.solver import SolverOptions
+
+        try:
+            s2 = s.deepcopy()
+            qn = np.array(s.q0, float).copy()
+            b2 = sub2
+            qn[b2.qDOF[:3]] = qn[b2.qDOF[:3]] + np.cross(sep, [0.2, -0.4, 0.7]) + 0.3 * sep
+            s2.set_new_initial_state(qn, np.zeros(s.nu), options=SolverOptions(compute_consistent_initial_conditions=False))
+            tq = s2.t0
+            for nm, u, _ in uud_letters(seed, s.nu)[:3]:
+                for qq in (qn, np.array(s.q0, float)):
+                    lhs = np.asarray(s2.gamma_F(tq, qq, u), float) - np.asarray(s2.gamma_F(tq, qq, np.zeros(s.nu)), float)
+                    rhs = fd.dense(s2.W_F(tq, qq)).T @ u
+                    _close(R, "gamma_F(u) - gamma_F(0) vs W_F^T u on a re-initialised deep copy", lhs, rhs, 1e-11, {"uud": nm}, "max_err_copy_gamma_F")
+        except Exception as e:  # noqa
+            if _own_exception(e):
+                raise
+            R.fail("deep copy + set_new_initial_state of a system with a sphere-sphere contact raises", f"{type(e).__name__}: {e}", exc=type(e).__name__)
+
 
 def check(case):
     import warnings
